@@ -13,11 +13,11 @@ from .. import gen, model as M, oracles as O, refmodel as R
 from ..runner import Skip
 
 RULE = ("cases from rng(seed, 7, 0, i): trajectory graphs of kind r2/r3/se2/se3 (3..20 poses, loops, landmarks with rotated offsets, dense SPD information, "
-        "noisy measurements, perturbed initial guess) and a frame change T with |t| up to 1e4 (1e6 thorough) and rotation from hostile classes (near 180 deg, "
+        "noisy measurements, perturbed initial guess or the textbook straight-line guess with exactly zero headings) and a frame change T with |t| up to 1e4 (1e6 thorough) and rotation from hostile classes (near 180 deg, "
         "w<0, angle at +-pi); K in 1..5 iterations. distinct = fingerprint(spec, T, K); non-trivial = T has non-zero translation and (for SE types) non-identity rotation "
         "and the optimizer moved some vertex by more than 1e-6.")
 REQ = ["eval:chi2-frame-invariant", "eval:trajectory-commutes-with-frame-change", "class:se2", "class:se3", "class:r2", "class:r3", "class:T:near180_or_pi", "class:K=1", "class:K=5",
-       "class:landmarks"]
+       "class:landmarks", "class:straight_line_initial_guess(exact zero headings)"]
 PLAN = {
     "quick": {"cases": 1200, "soft_s": 80, "min_nontrivial": 300, "require": REQ},
     "thorough": {"cases": 50000, "soft_s": 1300, "min_nontrivial": 10000, "require": REQ},
@@ -40,8 +40,13 @@ def run_case(ctx, i, rng):
     k = ["se2", "se3", "r2", "r3"][i % 4]
     K = 1 + (i // 4) % 5
     n = int(rng.integers(3, 21 if ctx.tier == "thorough" else 13))
+    straight = bool(rng.random() < 0.25)
+    if straight:
+        n = min(n, 6)
+        ctx.count("class:straight_line_initial_guess(exact zero headings)")
     spec = gen.trajectory_graph(rng, k, n, n_loops=int(rng.integers(0, n // 2 + 1)), n_lm=int(rng.integers(0, 3)), meas_t=0.03, meas_r=0.01,
-                                init_t=float(rng.uniform(0.01, 0.15)), init_r=float(rng.uniform(0.005, 0.08)), cond=float(10 ** rng.uniform(0, 3)), cross=True)
+                                init_t=float(rng.uniform(0.01, 0.15)), init_r=float(rng.uniform(0.005, 0.08)), cond=float(10 ** rng.uniform(0, 3)), cross=True,
+                                straight_init=straight, step=(0.3 if straight else 1.0))
     maxexp = 4.0 if ctx.tier == "quick" else 6.0
     T, tl = gen.pose(rng, k, maxexp)
     T = gen.normalize_pose(k, T)
